@@ -299,6 +299,13 @@ L1 = {
     "C06": {"quick": [("MC_LimitSort", "MC_LimitSort.cfg", 8)], "thorough": [("MC_LimitSort", "MC_LimitSort_t.cfg", 14), ("MC_Store", "MC_Store_fixed.cfg", 12)]},
     "C10": {"quick": [("MC_Store", "MC_Store_fixed.cfg", 12)], "thorough": [("MC_Store", "MC_Store_fixed_t.cfg", 14)]},
     "C12": {"quick": [("MC_Store", "MC_Store_fixed.cfg", 12)], "thorough": [("MC_Store", "MC_Store_fixed_t.cfg", 14)]},
+    "C20": {"quick": [("MC_Registry", "MC_Registry.cfg", 12)], "thorough": [("MC_Registry", "MC_Registry_t.cfg", 14)]},
+    "C16": {"quick": [("MC_DamLev", "MC_DamLev.cfg", 12), ("MC_DamLev", "MC_DamLev_hist.cfg", 12)],
+            "thorough": [("MC_DamLev", "MC_DamLev_t.cfg", 14), ("MC_DamLev", "MC_DamLev_hist_t.cfg", 14)]},
+    "C17": {"quick": [("MC_Jaccard", "MC_Jaccard.cfg", 12), ("MC_Jaccard", "MC_Jaccard_set.cfg", 12)],
+            "thorough": [("MC_Jaccard", "MC_Jaccard_t.cfg", 14), ("MC_Jaccard", "MC_Jaccard_set.cfg", 12)]},
+    "C19": {"quick": [("MC_DamLev", "MC_DamLev_hist.cfg", 12), ("MC_Jaccard", "MC_Jaccard.cfg", 12)],
+            "thorough": [("MC_DamLev", "MC_DamLev_hist_t.cfg", 14), ("MC_Jaccard", "MC_Jaccard_t.cfg", 14)]},
 }
 
 
@@ -360,6 +367,11 @@ def cases_for(prop, tier, seed, pools, toks, ck):
         for lang in L:
             cases += gen.gen_marker_cases(lang, rnd, pools[lang], toks, per(10, 300))
             cases += gen.gen_histories(prop, lang, rnd, pools[lang], toks, per(3, 100), length=12, adversarial=True)
+    elif prop == "C18":
+        for lang in L:
+            cases += gen.gen_prepare_cases(lang, rnd, pools[lang], toks, per(8, 250))
+    elif prop == "C20":
+        cases += gen.gen_registry_cases(rnd, per(40, 1200), pools, toks, length=per(30, 50))
     elif prop == "C08":
         for lang in L:
             cases += gen.gen_ranking_cases(lang, rnd, per(10, 300))
@@ -385,7 +397,43 @@ def run_property(prop, tier, seed):
     return verdict(prop, tier, seed, merged, l1, t0)
 
 
-EXTRA_PLANS = {}
+def plan_components(prop, tier, seed, t0):
+    """C15, C16, C17, C19: component-level traces validated by TV_Comp (C19 also store-level searches)"""
+    ck = build("checked")
+    l1 = run_l1(prop, tier)
+    rnd = random.Random(seed * 7919 + int(prop[1:]))
+    cases = []
+    if prop == "C15":
+        pools, toks = build_pools(ck, tier, random.Random(seed))
+        cases = gen.gen_tok_cases(rnd, tier, pools)
+    if prop in ("C16", "C19"):
+        cases += gen.gen_dl_cases(rnd, tier)
+    if prop in ("C17", "C19"):
+        cases += gen.gen_jac_cases(rnd, tier)
+    merged = run_cases(prop, cases, ck, None, spec="TV_Comp")
+    if prop == "C19":
+        # full searches and index preparation on real stores, long and short inputs alternating
+        pools, toks = build_pools(ck, tier, random.Random(seed))
+        sc = []
+        for lang in gen.LANGS:
+            sc += gen.gen_histories("C19", lang, rnd, pools[lang] + gen.ADVERSARIAL, toks, sizes(tier, 5, 150), length=16, adversarial=True)
+        m2 = run_cases(prop + "s", sc, ck, None, spec="TV_Store")
+        for k in ("events", "states", "transitions", "traces", "evaluations", "distinct", "cases", "t_replay", "t_tv"):
+            merged[k] += m2[k]
+        off = len(merged["traces_paths"])
+        for v in m2["viol"]:
+            v["shard"] += off
+        merged["viol"] += m2["viol"]
+        merged["drift"] += m2["drift"]
+        merged["hangs"] += m2["hangs"]
+        merged["scripts"] += m2["scripts"]
+        merged["traces_paths"] += m2["traces_paths"]
+        for k, n in m2["cnt"].items():
+            merged["cnt"][k] = merged["cnt"].get(k, 0) + n
+    return verdict(prop, tier, seed, merged, l1, t0, spec="TV_Comp")
+
+
+EXTRA_PLANS = {"C15": plan_components, "C16": plan_components, "C17": plan_components, "C19": plan_components}
 
 
 def setup():
